@@ -1,12 +1,324 @@
-(** Invariants of the connection model (Server/Model.v) and the theorems of C17 / C02. *)
+(** Invariants of the connection model (Server/Model.v): structure of the subscription map,
+    no rerunner leaks, stopped rerunners stay stopped and silent. *)
 From Coq Require Import List ZArith String Bool Arith Lia.
-From Thunder Require Import Lib.Json DiffMerge.Model Server.Model.
+From Thunder Require Import Lib.Json DiffMerge.Model Server.Model Server.Spec.
 Import ListNotations.
+Open Scope list_scope.
+
+(** * Association-list facts *)
+
+Lemma find_id_In id l rid : find_id id l = Some rid -> In (id, rid) l.
+Proof.
+  induction l as [|[i r] t IH]; cbn [find_id]; [discriminate|].
+  destruct (Nat.eqb i id) eqn:E.
+  - intros [= <-]. apply Nat.eqb_eq in E. subst. left; reflexivity.
+  - intros H. right; auto.
+Qed.
+
+Lemma In_find_id id l rid : NoDup (map fst l) -> In (id, rid) l -> find_id id l = Some rid.
+Proof.
+  induction l as [|[i r] t IH]; cbn [find_id map fst]; intros Hn Hin; [contradiction|].
+  inversion Hn as [|x xs Hnot Hn']; subst.
+  destruct Hin as [E|Hin].
+  - inversion E; subst. rewrite Nat.eqb_refl. reflexivity.
+  - destruct (Nat.eqb i id) eqn:E.
+    + apply Nat.eqb_eq in E. subst. exfalso. apply Hnot. apply (in_map fst) in Hin. exact Hin.
+    + auto.
+Qed.
+
+Lemma has_id_false_notin id l : has_id id l = false -> ~ In id (map fst l).
+Proof.
+  unfold has_id. induction l as [|[i r] t IH]; cbn [find_id map fst]; [auto|].
+  destruct (Nat.eqb i id) eqn:E; [discriminate|].
+  intros H [Hi|Hi]; [subst; rewrite Nat.eqb_refl in E; discriminate | exact (IH H Hi)].
+Qed.
+
+Lemma has_id_true_in id l : has_id id l = true -> exists rid, In (id, rid) l.
+Proof.
+  unfold has_id. destruct (find_id id l) eqn:E; [|discriminate]. intros _. eexists. apply find_id_In. exact E.
+Qed.
+
+Lemma remove_id_noop id l : has_id id l = false -> remove_id id l = l.
+Proof.
+  unfold has_id. induction l as [|[i r] t IH]; cbn [find_id remove_id]; [reflexivity|].
+  destruct (Nat.eqb i id); [discriminate|]. intros H. rewrite IH; auto.
+Qed.
+
+Lemma In_remove_id id l i r : In (i, r) (remove_id id l) <-> i <> id /\ In (i, r) l.
+Proof.
+  induction l as [|[i' r'] t IH]; cbn [remove_id].
+  - simpl. tauto.
+  - destruct (Nat.eqb i' id) eqn:E.
+    + apply Nat.eqb_eq in E. subst. rewrite IH. simpl. split.
+      * intros [H1 H2]. auto.
+      * intros [H1 [H2|H2]]; [inversion H2; subst; contradiction | auto].
+    + apply Nat.eqb_neq in E. simpl. rewrite IH. split.
+      * intros [H|[H1 H2]]; [inversion H; subst; auto | auto].
+      * intros [H1 [H2|H2]]; auto.
+Qed.
+
+Lemma NoDup_remove_id id l : NoDup (map fst l) -> NoDup (map fst (remove_id id l)).
+Proof.
+  induction l as [|[i r] t IH]; cbn [remove_id map fst]; intros Hn; [constructor|].
+  inversion Hn as [|x xs Hnot Hn']; subst.
+  destruct (Nat.eqb i id); [auto|].
+  cbn [map fst]. constructor; [|auto].
+  intros Hin. apply Hnot. apply in_map_iff in Hin as [[i' r'] [E Hin]]. cbn [fst] in E. subst.
+  apply In_remove_id in Hin as [_ Hin]. apply (in_map fst) in Hin. exact Hin.
+Qed.
+
+Lemma has_id_remove_id id id' l : has_id id' (remove_id id l) = if Nat.eqb id id' then false else has_id id' l.
+Proof.
+  unfold has_id. induction l as [|[i r] t IH]; cbn [remove_id find_id].
+  - destruct (Nat.eqb id id'); reflexivity.
+  - destruct (Nat.eqb i id) eqn:E.
+    + apply Nat.eqb_eq in E. subst i. rewrite IH. destruct (Nat.eqb id id'); reflexivity.
+    + cbn [find_id]. destruct (Nat.eqb i id') eqn:E2.
+      * apply Nat.eqb_eq in E2. subst i. rewrite Nat.eqb_sym in E. rewrite E. reflexivity.
+      * exact IH.
+Qed.
+
+Lemma has_rid_In rid l : has_rid rid l = true <-> exists id, In (id, rid) l.
+Proof.
+  induction l as [|[i r] t IH]; cbn [has_rid].
+  - split; [discriminate | intros [? []]].
+  - rewrite orb_true_iff, IH, Nat.eqb_eq. split.
+    + intros [E|[id H]]; [subst; exists i; left; reflexivity | exists id; right; exact H].
+    + intros [id [E|H]]; [inversion E; subst; left; reflexivity | right; exists id; exact H].
+Qed.
+
+Lemma upd_same {A} (m : nat -> option A) k v : upd m k v k = Some v.
+Proof. unfold upd. rewrite Nat.eqb_refl. reflexivity. Qed.
+
+Lemma upd_other {A} (m : nat -> option A) k v k' : k' <> k -> upd m k v k' = m k'.
+Proof. unfold upd. intros H. apply Nat.eqb_neq in H. rewrite H. reflexivity. Qed.
+
+(** * The structural invariant *)
+
+Definition inv_nodup (s : state) : Prop := NoDup (map fst (st_subs s)).
+(** every entry of the map is a rerunner created for that id, not yet stopped *)
+Definition inv_map (s : state) : Prop :=
+  forall id rid, In (id, rid) (st_subs s) ->
+    exists r, st_runners s rid = Some r /\ r_sub r = id /\ r_stat r <> Stopped.
+(** no leak: every rerunner ever created is in the map until it is stopped *)
+Definition inv_noleak (s : state) : Prop :=
+  forall rid r, st_runners s rid = Some r -> r_stat r <> Stopped -> In (r_sub r, rid) (st_subs s).
+Definition inv_fresh (s : state) : Prop := forall rid r, st_runners s rid = Some r -> rid < st_next s.
+Definition inv_closed (s : state) : Prop := st_closed s = true -> st_subs s = [].
+
+Definition Inv (s : state) : Prop := inv_nodup s /\ inv_map s /\ inv_noleak s /\ inv_fresh s /\ inv_closed s.
+
+Lemma Inv_ext s s' :
+  st_runners s' = st_runners s -> st_next s' = st_next s -> st_subs s' = st_subs s -> st_closed s' = st_closed s ->
+  Inv s -> Inv s'.
+Proof.
+  unfold Inv, inv_nodup, inv_map, inv_noleak, inv_fresh, inv_closed. intros E1 E2 E3 E4. rewrite E1, E2, E3, E4. auto.
+Qed.
+
+Lemma Inv_init : Inv init.
+Proof.
+  unfold Inv, inv_nodup, inv_map, inv_noleak, inv_fresh, inv_closed, init; cbn.
+  repeat split; try constructor; intros; try contradiction; try discriminate.
+Qed.
+
+Lemma Inv_accept s id k b : Inv s -> has_id id (st_subs s) = false -> st_closed s = false -> Inv (accept s id k b).
+Proof.
+  intros (Hn & Hm & Hl & Hf & Hc) Hid Hcl.
+  unfold Inv, inv_nodup, inv_map, inv_noleak, inv_fresh, inv_closed, accept; cbn [st_subs st_runners st_next st_closed].
+  rewrite (remove_id_noop _ _ Hid).
+  repeat split.
+  - cbn [map fst]. constructor; [apply has_id_false_notin; exact Hid | exact Hn].
+  - intros id' rid [E|Hin].
+    + inversion E; subst. rewrite upd_same. eexists; repeat split; cbn; discriminate.
+    + destruct (Hm _ _ Hin) as (r & Hr & Hs & Hst).
+      rewrite upd_other; [eauto|]. apply Hf in Hr. lia.
+  - intros rid r Hr Hst. destruct (Nat.eq_dec rid (st_next s)) as [->|Hne].
+    + rewrite upd_same in Hr. inversion Hr; subst. cbn. left; reflexivity.
+    + rewrite upd_other in Hr by exact Hne. right. eauto.
+  - intros rid r Hr. destruct (Nat.eq_dec rid (st_next s)) as [->|Hne]; [lia|].
+    rewrite upd_other in Hr by exact Hne. apply Hf in Hr. lia.
+  - intros H. rewrite Hcl in H. discriminate.
+Qed.
+
+Lemma stop_in_other m rid rid' : rid' <> rid -> stop_in m rid rid' = m rid'.
+Proof. intros H. unfold stop_in. destruct (m rid); [apply upd_other; exact H | reflexivity]. Qed.
+
+Lemma stop_in_same m rid r : m rid = Some r -> stop_in m rid rid = Some (set_stat r Stopped).
+Proof. intros H. unfold stop_in. rewrite H. apply upd_same. Qed.
+
+Lemma Inv_close_entry s id rid : Inv s -> In (id, rid) (st_subs s) -> Inv (close_entry s id rid).
+Proof.
+  intros (Hn & Hm & Hl & Hf & Hc) Hin.
+  unfold Inv, inv_nodup, inv_map, inv_noleak, inv_fresh, inv_closed, close_entry; cbn [st_subs st_runners st_next st_closed].
+  destruct (Hm _ _ Hin) as (r0 & Hr0 & Hs0 & Hst0).
+  repeat split.
+  - apply NoDup_remove_id; exact Hn.
+  - intros id' rid' H. apply In_remove_id in H as [Hne H].
+    destruct (Hm _ _ H) as (r & Hr & Hs & Hst).
+    assert (rid' <> rid).
+    { intros ->. rewrite Hr0 in Hr. inversion Hr; subst. congruence. }
+    rewrite stop_in_other by assumption. eauto.
+  - intros rid' r Hr Hst. destruct (Nat.eq_dec rid' rid) as [->|Hne].
+    + rewrite (stop_in_same _ _ _ Hr0) in Hr. inversion Hr; subst. cbn in Hst. congruence.
+    + rewrite stop_in_other in Hr by exact Hne. apply In_remove_id. split; [|eauto].
+      intros E. specialize (Hl _ _ Hr Hst). rewrite E in Hl.
+      apply (In_find_id _ _ _ Hn) in Hl. apply (In_find_id _ _ _ Hn) in Hin. congruence.
+  - intros rid' r Hr. destruct (Nat.eq_dec rid' rid) as [->|Hne].
+    + eapply Hf; eauto.
+    + rewrite stop_in_other in Hr by exact Hne. eauto.
+  - intros H. rewrite (Hc H). reflexivity.
+Qed.
+
+Lemma Inv_close_id s id : Inv s -> Inv (close_id s id).
+Proof.
+  intros H. unfold close_id. destruct (find_id id (st_subs s)) eqn:E; [|exact H].
+  apply Inv_close_entry; [exact H | apply find_id_In; exact E].
+Qed.
+
+Lemma Inv_close_all cfg s : Inv s -> Inv (close_all cfg s).
+Proof.
+  intros (Hn & Hm & Hl & Hf & Hc).
+  unfold Inv, inv_nodup, inv_map, inv_noleak, inv_fresh, inv_closed, close_all; cbn [st_subs st_runners st_next st_closed].
+  repeat split; try constructor.
+  - intros id rid [].
+  - intros rid r Hr Hst. exfalso.
+    destruct (st_runners s rid) as [r0|] eqn:E; [|discriminate].
+    destruct (has_rid rid (st_subs s)) eqn:Eh.
+    + inversion Hr; subst. cbn in Hst. congruence.
+    + inversion Hr; subst. specialize (Hl _ _ E Hst).
+      assert (has_rid rid (st_subs s) = true) by (apply has_rid_In; eauto). congruence.
+  - intros rid r Hr. destruct (st_runners s rid) as [r0|] eqn:E; [|discriminate]. eauto.
+Qed.
+
+Lemma Inv_set_runner s rid r r' :
+  Inv s -> st_runners s rid = Some r -> r_stat r <> Stopped -> r_sub r' = r_sub r -> r_stat r' <> Stopped ->
+  Inv (set_runner s rid r').
+Proof.
+  intros (Hn & Hm & Hl & Hf & Hc) Hr Hst Hs' Hst'.
+  unfold Inv, inv_nodup, inv_map, inv_noleak, inv_fresh, inv_closed, set_runner; cbn [st_subs st_runners st_next st_closed].
+  repeat split; auto.
+  - intros id rid' Hin. destruct (Nat.eq_dec rid' rid) as [->|Hne].
+    + rewrite upd_same. destruct (Hm _ _ Hin) as (r1 & Hr1 & Hs1 & _). rewrite Hr in Hr1. inversion Hr1; subst.
+      eexists; repeat split; eauto.
+    + rewrite upd_other by exact Hne. eauto.
+  - intros rid' r1 Hr1 Hst1. destruct (Nat.eq_dec rid' rid) as [->|Hne].
+    + rewrite upd_same in Hr1. inversion Hr1; subst. rewrite Hs'. eauto.
+    + rewrite upd_other in Hr1 by exact Hne. eauto.
+  - intros rid' r1 Hr1. destruct (Nat.eq_dec rid' rid) as [->|Hne]; [eauto|].
+    rewrite upd_other in Hr1 by exact Hne. eauto.
+Qed.
+
+Lemma live_not_stopped r : is_live r = true -> r_stat r <> Stopped.
+Proof. unfold is_live. destruct (r_stat r); congruence. Qed.
+
+Lemma Inv_do_run s rid r o : Inv s -> st_runners s rid = Some r -> is_live r = true -> Inv (do_run s rid r o).
+Proof.
+  intros H Hr Hl. pose proof (live_not_stopped _ Hl) as Hns.
+  assert (F : Inv (set_runner s rid (set_stat r Failed))).
+  { eapply Inv_set_runner; eauto; cbn; congruence. }
+  unfold do_run. destruct (r_kind r); destruct o.
+  - assert (G : Inv (set_runner s rid (mk_runner (r_sub r) KSub Live false v))).
+    { eapply Inv_set_runner; eauto; cbn; congruence. }
+    destruct (Diff (r_prev r) v); [eapply Inv_ext; [..|exact G]; reflexivity|].
+    destruct (r_initial r); [eapply Inv_ext; [..|exact G]; reflexivity | exact G].
+  - destruct (r_initial r); [eapply Inv_ext; [..|exact F]; reflexivity | exact H].
+  - eapply Inv_ext; [..|exact F]; reflexivity.
+  - eapply Inv_ext; [..|exact F]; reflexivity.
+  - eapply Inv_ext; [..|exact F]; reflexivity.
+  - eapply Inv_ext; [..|exact F]; reflexivity.
+Qed.
+
+Lemma ready_open s : ready s = true -> st_closed s = false /\ st_pend s = None.
+Proof.
+  unfold ready. destruct (st_closed s); cbn; [discriminate|]. destruct (st_pend s); [discriminate | auto].
+Qed.
+
+(** Every step of the repaired handleMutate (duplicate check) preserves the invariant; the other three
+    repairs are not needed for it. *)
+Theorem step_Inv cfg s l s' : c_fix_mutdup cfg = true -> Inv s -> step cfg s l = Some s' -> Inv s'.
+Proof.
+  intros Hfix H Hs. destruct l; cbn [step] in Hs.
+  - (* subscribe *)
+    destruct (ready s) eqn:R; [|discriminate]. inversion Hs; subst; clear Hs.
+    apply ready_open in R as [Rc _]. unfold do_subscribe.
+    destruct q; try (eapply Inv_ext; [..|exact H]; reflexivity);
+      (destruct (has_id id (st_subs s)) eqn:E; [eapply Inv_ext; [..|exact H]; reflexivity|]);
+      (destruct (Nat.ltb (c_max cfg) (List.length (st_subs s) + 1)); [eapply Inv_ext; [..|exact H]; reflexivity|]).
+    + apply Inv_accept; assumption.
+    + eapply Inv_ext; [..|exact H]; reflexivity.
+  - (* mutate *)
+    destruct (ready s) eqn:R; [|discriminate]. inversion Hs; subst; clear Hs.
+    apply ready_open in R as [Rc _]. unfold do_mutate. rewrite Hfix. cbn [andb].
+    destruct q; try (eapply Inv_ext; [..|exact H]; reflexivity);
+      (destruct (has_id id (st_subs s)) eqn:E; [eapply Inv_ext; [..|exact H]; reflexivity|]).
+    + apply Inv_accept; assumption.
+    + eapply Inv_ext; [..|exact H]; reflexivity.
+  - destruct (ready s); [|discriminate]. inversion Hs; subst. apply Inv_close_id; exact H.
+  - destruct (ready s); [|discriminate]. inversion Hs; subst. eapply Inv_ext; [..|exact H]; reflexivity.
+  - destruct (ready s); [|discriminate]. inversion Hs; subst. destruct ok; [exact H | eapply Inv_ext; [..|exact H]; reflexivity].
+  - destruct (ready s); [|discriminate]. inversion Hs; subst. eapply Inv_ext; [..|exact H]; reflexivity.
+  - destruct (ready s); [|discriminate]. inversion Hs; subst. apply Inv_close_all; exact H.
+  - destruct (st_pend s); [|discriminate]. destruct (st_closed s) eqn:C; [discriminate|]. inversion Hs; subst.
+    eapply Inv_ext; [..|exact H]; cbn; auto.
+  - destruct (st_runners s rid) as [r|] eqn:E; [|discriminate]. destruct (is_live r) eqn:L; [|discriminate].
+    inversion Hs; subst. apply Inv_do_run; assumption.
+  - inversion Hs; subst; exact H.
+  - inversion Hs; subst; exact H.
+  - destruct (mem_task (id, rid) (st_tasks s)); [|discriminate]. inversion Hs; subst; clear Hs.
+    unfold do_close_task.
+    set (s1 := set_tasks s (remove_task (id, rid) (st_tasks s))).
+    assert (H1 : Inv s1) by (eapply Inv_ext; [..|exact H]; reflexivity).
+    destruct (c_fix_aba cfg); [|apply Inv_close_id; exact H1].
+    destruct (find_id id (st_subs s1)) eqn:E; [|exact H1].
+    destruct (Nat.eqb n rid) eqn:E2; [|exact H1].
+    apply Nat.eqb_eq in E2. subst n. apply Inv_close_entry; [exact H1 | apply find_id_In; exact E].
+  - destruct (ready s); [|discriminate]. inversion Hs; subst. apply Inv_close_all; exact H.
+Qed.
+
+Theorem run_Inv cfg h : c_fix_mutdup cfg = true -> forall s s', Inv s -> run cfg s h = Some s' -> Inv s'.
+Proof.
+  intros Hfix. induction h as [|l t IH]; intros s s' H Hr; cbn [run] in Hr.
+  - inversion Hr; subst; exact H.
+  - destruct (step cfg s l) eqn:E; [|discriminate]. eapply IH; [|exact Hr]. eapply step_Inv; eauto.
+Qed.
+
+Theorem reachable_Inv cfg s : c_fix_mutdup cfg = true -> reachable cfg s -> Inv s.
+Proof. intros Hfix [h Hr]. eapply run_Inv; eauto. apply Inv_init. Qed.
+
+Lemma run_app cfg h1 : forall h2 s, run cfg s (h1 ++ h2) = match run cfg s h1 with Some s1 => run cfg s1 h2 | None => None end.
+Proof.
+  induction h1 as [|l t IH]; intros h2 s; cbn [run app]; [reflexivity|].
+  destruct (step cfg s l); [apply IH | reflexivity].
+Qed.
+
+Lemma reachable_step cfg s l s' : reachable cfg s -> step cfg s l = Some s' -> reachable cfg s'.
+Proof.
+  intros [h Hr] Hs. exists (h ++ [l]). rewrite run_app, Hr. cbn [run]. rewrite Hs. reflexivity.
+Qed.
+
+Lemma reachable_run cfg h : forall s s', reachable cfg s -> run cfg s h = Some s' -> reachable cfg s'.
+Proof.
+  induction h as [|l t IH]; intros s s' R Hr; cbn [run] in Hr.
+  - inversion Hr; subst; exact R.
+  - destruct (step cfg s l) eqn:E; [|discriminate]. eapply IH; [|exact Hr]. eapply reachable_step; eauto.
+Qed.
+
+(** * Consequences *)
 
 Lemma stopped_never_runs : forall cfg s rid r o,
   st_runners s rid = Some r -> r_stat r = Stopped -> step cfg s (LRun rid o) = None.
 Proof.
   intros cfg s rid r o Hr Hs. simpl. rewrite Hr. unfold is_live. rewrite Hs. reflexivity.
+Qed.
+
+(** After the connection closed every rerunner ever created is stopped. *)
+Lemma closed_all_stopped s : Inv s -> st_closed s = true ->
+  forall rid r, st_runners s rid = Some r -> r_stat r = Stopped.
+Proof.
+  intros (Hn & Hm & Hl & Hf & Hc) C rid r Hr.
+  destruct (r_stat r) eqn:E; auto; exfalso.
+  - assert (X : r_stat r <> Stopped) by congruence. specialize (Hl _ _ Hr X). rewrite (Hc C) in Hl. exact Hl.
+  - assert (X : r_stat r <> Stopped) by congruence. specialize (Hl _ _ Hr X). rewrite (Hc C) in Hl. exact Hl.
 Qed.
 
 (** Every envelope a computation writes carries the id its rerunner was created for. *)
